@@ -147,6 +147,13 @@ def check(ctx):
                       "the spawned system can run without all of: entity found, component found, system not already running")
             errs = [b for b, i, st in sp.iter_stmts() if st["k"] == "assign" and st["place"]["l"] == 0 and "agg" in st["rv"] and st["rv"]["agg"].get("vname") == "Err"]
             after = sp.reach_from(lib.call_target(sp, r))
+            # an error is returned only for a missing or currently running system: every early Err sits on the failure arm of
+            # one of the three guards (an extra refusal - a depth limit, a flag - makes live, idle systems uncallable)
+            early = [b for b in errs if b not in after]
+            fails = [f_ for _, _, f_ in pre]
+            ctx.check(all(lib.dominated_by_any(sp, b, fails) for b in early), "C17.c", "spawned_syscall:errors-only-for-missing-or-running-system", sp.loc(r),
+                      "every Err before the run is on the failure arm of entity / component / system-present",
+                      "spawned_syscall can refuse (Err) a system that exists and is not running")
             late = [b for b in errs if b in after]
             # exception: the `?` right after run (Try::branch on the run's own result)
             tb = [b for b, t, fr in sp.iter_calls() if lib.is_call(fr, "Try::branch")]
@@ -205,6 +212,7 @@ def check(ctx):
     _cache_pairing(ctx, prog)
     _lifecycle(ctx, prog)
     _sysname(ctx, prog)
+    _no_rekeying(ctx, prog)
     _ext_siblings(ctx, prog)
     _archetype_update(ctx, prog)
 
@@ -269,6 +277,33 @@ def _sysname(ctx, prog):
         and all(any(sn.dominates(h, f) for h in hashed) for f in fin)
     ctx.check(ok, "C17.b", "SysName::new:key-depends-on-the-given-name", "%s:%d" % (sn.file, sn.line),
               "the id is hashed into the key before finish()", "SysName::new does not hash the given id into the key: every name of one system type maps to the same state")
+
+
+def _no_rekeying(ctx, prog):
+    """C17.b: a name is turned into a key exactly once. `named_syscall(world, id, ..)` hashes its `id` into a SysName; handing
+    it an already built SysName (or calling SysName::new on a SysName) stores the state under hash(key) instead of key, so
+    the same name used through another entry point sees a different instance."""
+    n = 0
+    bad = []
+    for body in prog.bodies:
+        for b, t, fr in body.iter_calls():
+            if fr is None:
+                continue
+            nm = mir.strip_generics(mir.fn_name(fr))
+            if nm.endswith("named_syscall::named_syscall") or nm.endswith("SysName::new"):
+                n += 1
+                idty = None
+                if len(t["args"]) >= (2 if nm.endswith("named_syscall") else 1):
+                    a = t["args"][1 if nm.endswith("named_syscall") else 0]
+                    p = op_place(a)
+                    idty = body.local_ty(p["l"]) if p is not None and not p["p"] else None
+                if idty is not None and re.sub(r"^&(mut )?", "", idty).endswith("named_syscall::SysName"):
+                    bad.append((body, b))
+    for body, b in bad:
+        ctx.fail("C17.b", "%s:name-keyed-once" % lib.fkey(body), body.loc(b), "an already built SysName is hashed again into a second key: the state is stored under a key that "
+                 "no other entry point (named_syscall_direct, register_named_system) computes for this name")
+    if not bad:
+        ctx.ok("C17.b", "name-keyed-once", "", "no SysName is re-hashed into another SysName (%d keying sites)" % n)
 
 
 def _ext_siblings(ctx, prog):
